@@ -4,6 +4,7 @@
 -/
 import VProofs.AuthRulesMember
 import VProofs.AuthRulesEvents
+import VModel.AuthQuerier
 namespace V.AuthRules
 open V V.Json V.GoJson V.Auth
 
@@ -187,6 +188,82 @@ theorem np_allowed (c : Ctx) (p : Provider) (hf : Fresh p c) (e : Event) (sig : 
     · exact np_create c e hw
     · split
       · exact np_aliases c e
+      · split
+        · rename_i v hv
+          rcases (plErr_spec hf).2 v hv with rfl | rfl
+          · exact np_na
+          · exact np_fail
+        · repeat (first | exact np_member c p hf e sig hr | exact np_powerLevels c p hf e hr | exact np_redact c p hf e hr | exact np_default c p hf e hr | split)
+
+/-! ## The sender lookup with any querier (defect P2 of the second audit round)
+
+`Ctx.createEventAllowedQ q` / `Ctx.aliasEventAllowedQ q` are the two checks with the context's querier as a parameter; the
+`(nil, nil)` answer is the `none` branch, refused since the fix (before it: a nil dereference).  With the standard
+querier they are the functions every other theorem is about; with ANY querier that does not itself panic they do not
+panic; `Ctx.allowedNilQ` is the whole check with the querier that answers `(nil, nil)` for a sender that is no user ID. -/
+
+theorem createEventAllowedQ_std (c : Ctx) (e : Event) : c.createEventAllowedQ stdQuerier e = c.createEventAllowed e := by
+  unfold Ctx.createEventAllowedQ Ctx.createEventAllowed stdQuerier
+  cases resolveUser e.sender <;> rfl
+
+theorem aliasEventAllowedQ_std (c : Ctx) (e : Event) : c.aliasEventAllowedQ stdQuerier e = c.aliasEventAllowed e := by
+  unfold Ctx.aliasEventAllowedQ Ctx.aliasEventAllowed stdQuerier
+  cases resolveUser e.sender <;> rfl
+
+theorem np_stdQuerier (s : Bytes) : NoPanic (stdQuerier s) := by
+  unfold stdQuerier
+  have := np_resolveUser s
+  cases h : resolveUser s with
+  | ok u => exact np_ok _
+  | error v => exact ⟨fun site hs => by rw [h] at this; exact this.h site (by cases hs; rfl)⟩
+
+theorem np_nilQuerier (s : Bytes) : NoPanic (nilQuerier s) := by
+  unfold nilQuerier
+  have := np_resolveUser s
+  cases h : resolveUser s with
+  | ok u => exact np_ok _
+  | error v =>
+    cases v with
+    | err => exact np_ok _
+    | panic st => exact absurd rfl (by rw [h] at this; exact this.h st)
+    | ok => exact ⟨fun _ hs => by cases hs⟩
+    | notAllowed => exact ⟨fun _ hs => by cases hs⟩
+    | unmodelled w => exact ⟨fun _ hs => by cases hs⟩
+
+/-- the create check: no querier answer — `(nil, nil)` included — reaches a panic site -/
+theorem np_createQ (q : Querier) (hq : ∀ s, NoPanic (q s)) (c : Ctx) (e : Event) (hw : RoomIDWellFormed e) :
+    NoPanic (c.createEventAllowedQ q e) := by
+  unfold Ctx.createEventAllowedQ
+  simp only [notAllowed_bind]
+  repeat (first | np_close | exact hq _ | exact np_checkCreateEvent e _ hw | np_split)
+
+/-- the aliases check: the same -/
+theorem np_aliasesQ (q : Querier) (hq : ∀ s, NoPanic (q s)) (c : Ctx) (e : Event) : NoPanic (c.aliasEventAllowedQ q e) := by
+  unfold Ctx.aliasEventAllowedQ
+  repeat (first | np_close | exact hq _ | exact np_domainAllowed _ _ | np_split)
+
+/-- a `(nil, nil)` answer refuses the event in both checks (what the repaired code does; the unrepaired code
+    dereferenced the nil pointer here) -/
+theorem createQ_nil_refused (q : Querier) (c : Ctx) (e : Event) (hq : q e.sender = .ok none)
+    (h1 : e.stateKeyEquals [] = true) (h2 : ¬ e.prevEventIDs.length > 0) :
+    c.createEventAllowedQ q e = notAllowed := by
+  unfold Ctx.createEventAllowedQ
+  simp [h1, h2, hq, bind, Except.bind]
+
+theorem aliasesQ_nil_refused (q : Querier) (c : Ctx) (e : Event) (hq : q e.sender = .ok none) :
+    c.aliasEventAllowedQ q e = notAllowed := by
+  unfold Ctx.aliasEventAllowedQ
+  simp [hq, bind, Except.bind]
+
+theorem np_allowedNilQ (c : Ctx) (p : Provider) (hf : Fresh p c) (e : Event) (sig : Bool) (hr : e.roomID ≠ [])
+    (hw : RoomIDWellFormed e) : NoPanic (c.allowedNilQ e sig) := by
+  unfold Ctx.allowedNilQ Ctx.dispatchNilQ Ctx.dispatchPL
+  split
+  · exact np_na
+  · split
+    · exact np_createQ nilQuerier np_nilQuerier c e hw
+    · split
+      · exact np_aliasesQ nilQuerier np_nilQuerier c e
       · split
         · rename_i v hv
           rcases (plErr_spec hf).2 v hv with rfl | rfl
